@@ -575,6 +575,94 @@ func runC15(c *Ctx) error {
 			return nil
 		}
 	}
+	// ---- (d) the queue as the asynchronous write APIs use it: callbacks of WriteAsync / WritevAsync are tasks of the
+	// same queue - one at a time, in submission order - also across the moment the connection becomes closed
+	for _, server := range []bool{true, false} {
+		for _, api := range []string{"WriteAsync", "WritevAsync"} {
+			for _, ending := range []string{"local-close", "none"} {
+				spec := connSpec{Server: server}
+				conn, tap, err := spec.open(&recHandler{})
+				if err != nil {
+					return err
+				}
+				gate := make(chan struct{}, 16)
+				entered := make(chan int, 16)
+				tap.mu.Lock()
+				tap.gate, tap.gateEntered = gate, entered
+				tap.mu.Unlock()
+				var mu sync.Mutex
+				var order []int
+				running := 0
+				overlap := false
+				cb := func(i int) func(error) {
+					return func(error) {
+						mu.Lock()
+						running++
+						if running > 1 {
+							overlap = true
+						}
+						order = append(order, i)
+						mu.Unlock()
+						time.Sleep(200 * time.Microsecond)
+						mu.Lock()
+						running--
+						mu.Unlock()
+					}
+				}
+				submit := func(i int) {
+					p := []byte(fmt.Sprintf("async-%d", i))
+					if api == "WriteAsync" {
+						conn.WriteAsync(gws.OpcodeBinary, p, cb(i))
+					} else {
+						conn.WritevAsync(gws.OpcodeBinary, [][]byte{p}, cb(i))
+					}
+				}
+				submit(1)
+				select { // task 1 is inside the transport
+				case <-entered:
+				case <-time.After(5 * time.Second):
+				}
+				submit(2)
+				if ending == "local-close" {
+					go func() { _ = conn.WriteClose(1000, nil) }() // sets the closed flag at once, then waits for the write lock
+					time.Sleep(5 * time.Millisecond)
+				}
+				submit(3)
+				mu.Lock()
+				early := append([]int(nil), order...)
+				mu.Unlock()
+				for i := 0; i < 8; i++ {
+					gate <- struct{}{}
+				}
+				deadline := time.Now().Add(5 * time.Second)
+				for time.Now().Before(deadline) {
+					mu.Lock()
+					n := len(order)
+					mu.Unlock()
+					if n == 3 {
+						break
+					}
+					time.Sleep(time.Millisecond)
+				}
+				mu.Lock()
+				final := append([]int(nil), order...)
+				ov := overlap
+				mu.Unlock()
+				tag := fmt.Sprintf("async callbacks role=%s api=%s ending=%s", roleName(server), api, ending)
+				replay := map[string]any{"tag": tag, "callbacks_before_release": fmt.Sprint(early), "callback_order": fmt.Sprint(final)}
+				switch {
+				case len(early) != 0:
+					c.oracleFail(fmt.Sprintf("callback(s) %v ran while task 1 was still running inside the transport (tasks must run one at a time, in submission order) [%s]", early, tag), "async-callback-outside-queue", replay)
+				case len(final) != 3 || final[0] != 1 || final[1] != 2 || final[2] != 3:
+					c.oracleFail(fmt.Sprintf("callbacks ran in order %v, submitted 1 2 3 [%s]", final, tag), "async-callback-order", replay)
+				case ov:
+					c.oracleFail("two callbacks of the asynchronous write API overlapped ["+tag+"]", "async-callback-overlap", replay)
+				}
+				_ = tap.Close()
+				c.count(tag, true, "kind=async-callbacks")
+			}
+		}
+	}
 	s, err := c15NewSys()
 	if err != nil {
 		return err
